@@ -17,10 +17,8 @@ from coqfmt import zraw, b, lst, opt, tup
 
 replay = common.generic_replay
 
-# which model the implementation is compared with: 'faithful' = the code with the recorded defects (known_findings.d/C13.json),
-# 'fixed' = every proposed repair applied.  Switch to 'fixed' once the fix: commits are in /repo (or give a cfg term, e.g.
-# '(mkCfg true true false false false false)' = only delete_*-flush and exit-exn repairs; field order as in coq/model/Cache.v).
-MODEL_CFG = 'faithful'
+# the model mirrors /repo after the fix: commits recorded in known_findings.d/C13.json (all status "fixed": they suppress nothing;
+# should one of those defects return, classify() names it by its old key and the check reports a VIOLATION)
 
 TRACKED = {'not_special_connectivity': 'Knsc', 'rings_count': 'Krc', 'sssr': 'Ksssr', 'atoms_rings': 'Kar',
            'atoms_rings_sizes': 'Kars', 'connected_components': 'Kcc', 'brutto': '(Kplain 1)', 'molecular_charge': '(Kplain 2)',
@@ -222,6 +220,8 @@ class World:
                 m.atom(op[1]).is_radical = op[2]
             elif k == 'patch':
                 n, mm, bo, dch = op[1:]
+                if n == mm:
+                    raise ValueError('a match maps distinct pattern atoms to distinct atoms')      # guard of the stub
                 if n not in m._atoms or mm not in m._atoms:
                     raise KeyError(n)
                 # what Standardize.standardize() does with one rule that matches once
@@ -504,7 +504,7 @@ class Corr:
         mexn = []
         for op, e in zip(ops, exns):
             mexn += [None] * len(model_ops(op)) if op[0] == 'read' else [e]       # the model has no failing reads
-        self.cases.append(f'check_case cfg0 {seedname} {lst(mops)} {lst(mexn, exn_term)} {b(st)} {obs_term(obs[0])} '
+        self.cases.append(f'check_case {seedname} {lst(mops)} {lst(mexn, exn_term)} {b(st)} {obs_term(obs[0])} '
                           f'{lst(obs[1:], obs_term)} {lst(identity_partition(world), zraw)}')
         self.meta.append((tag, ops, exns))
         sh = atoms_shared(world)
@@ -577,7 +577,7 @@ def explore_exhaustive(cr, depth, depth_extra, do_search=True):
 
 
 def corr_run(cr, name='c13', shard=300):
-    extra = f'Import ListNotations.\nOpen Scope Z_scope.\nDefinition cfg0 := {MODEL_CFG}.\n' + '\n'.join(cr.seed_defs)
+    extra = 'Import ListNotations.\nOpen Scope Z_scope.\n' + '\n'.join(cr.seed_defs)
     return coqcases.run_cases(name, 'Cache', cr.cases, extra=extra, shard=shard)
 
 
@@ -771,7 +771,7 @@ def explore_random(cr, nseq, length, do_search=True):
             if ff:
                 report(ck, smi, oth, [t[2] for t in trail], [], ff, 'random (end of history)')
         ck.count('corr:read-raised', w.read_raised)
-        cr.cases.append(f'check_steps cfg0 {name} {lst(steps)}')
+        cr.cases.append(f'check_steps {name} {lst(steps)}')
         cr.meta.append((f'{name}:{smi}|{oth}', [t[0] for t in trail], [t[1] for t in trail]))
         ck.case((name, smi, tuple(t[0] for t in trail)), nontrivial=True)
         ck.count(f'corr:random:atoms<={10 * (len(w.cur._atoms) // 10 + 1)}')
@@ -870,6 +870,8 @@ def expected_exception(world, op):
     if k == 'set_radical':
         return None if op[1] in atoms else 'KeyError'
     if k == 'patch':
+        if op[1] == op[2]:
+            return 'ValueError'
         return None if op[1] in atoms and op[2] in atoms else 'KeyError'
     if k == 'exit_exn':
         return None if in_transaction(m) else '*'      # __exit__ without __enter__ is outside the contract
@@ -1090,12 +1092,15 @@ def search_stereo_and_reactions(ck):
         if any(x is y for x, y in zip(c.molecules(), r.molecules())) or [deep(m) for m in c.molecules()] != before or str(c) != s0:
             ck.counterexample(f'reaction-copy:{rs}', 'ReactionContainer.copy() shares molecules with / differs from its source', {'reaction': rs},
                               str(c), s0, 'deep comparison', replay_py=f'from chython import smiles\nr = smiles({rs!r}); c = r.copy(); print(r, c)')
-        # editing a molecule of the copy (through a transaction: copies are not editable otherwise, see copy-slots-unset)
+        # editing a molecule of the copy
         cm = next(iter(c.molecules()))
-        for s in ('_changed', '_backup'):
-            if not hasattr(cm, s):
-                setattr(cm, s, None)
-        cm.add_atom('N')
+        try:
+            cm.add_atom('N')
+        except Exception as e:  # noqa
+            ck.counterexample(f'reaction-copy-editable:{rs}', f'a molecule of a reaction copy cannot be edited: add_atom raised {type(e).__name__}',
+                              {'reaction': rs}, type(e).__name__, 'no exception', 'contract',
+                              replay_py=f'from chython import smiles\nr = smiles({rs!r}); c = r.copy(); next(iter(c.molecules())).add_atom("N")')
+            continue
         if [deep(m) for m in r.molecules()] != before:
             ck.counterexample(f'reaction-copy-independence:{rs}', 'editing a molecule of a reaction copy changed the source reaction', {'reaction': rs},
                               'source changed', 'source unchanged', 'deep comparison')
@@ -1115,7 +1120,7 @@ def run(ck):
     ck.assumptions += [
         'coq/model/Cache.v is a hand-written model of Graph/MoleculeContainer mutators, flush_cache variants, fix_structure/calc_labels/'
         'calc_implicit control flow, copy/substructure/union/remap, __enter__/__exit__ and the patch step of Standardize.__standardize; '
-        f'the implementation is compared with the model configuration {MODEL_CFG!r}',
+        'the model mirrors the code after the fix: commits of known_findings.d/C13.json',
         'derived values are modelled as snapshots of what they were computed from; the derive functions themselves (SMILES, SSSR, valence '
         'rules, stereo perception) are universally quantified in the theorems and are NOT modelled: that their result depends only on the '
         'view (for the ring family: only on the non-special connectivity) is a hypothesis, exercised by the rebuild-from-scratch search',
@@ -1138,13 +1143,12 @@ def run(ck):
     ok2, failing2, log2 = corr_run(cr2, 'c13r', shard=7 if quick else 25)
     ok = ok1 and ok2
     bad = [cr.meta[i] for i in failing1] + [cr2.meta[i] for i in failing2]
-    ck.oblige(f'correspondence: real MoleculeContainer == Cache model ({MODEL_CFG}) on {n_ex} exhaustive histories and {len(cr2.cases)} random ones',
+    ck.oblige(f'correspondence: real MoleculeContainer == Cache model on {n_ex} exhaustive histories and {len(cr2.cases)} random ones',
               ok and not bad, 'correspondence', (log1 + log2)[-1500:] or repr(bad[:5]))
     shared = cr.shared_atoms + cr2.shared_atoms
     ck.oblige('atom objects are never shared between live molecules (justifies by-value atoms in the model)', not shared, 'correspondence',
               repr(shared[:3]))
     ck.extra['correspondence_cases'] = len(cr.cases) + len(cr2.cases)
-    ck.extra['model_cfg'] = MODEL_CFG
     ck.sample({'model_call': cr.cases[len(cr.cases) // 2][:1500], 'meta': repr(cr.meta[len(cr.meta) // 2])})
     if cr2.cases:
         ck.sample({'model_call': cr2.cases[0][:1500], 'meta': repr(cr2.meta[0])[:600]})
